@@ -120,8 +120,8 @@ def name_flow(repo: Repo) -> Flow:
     return Flow(repo, T, Spec(sources=sources, transfer=transfer, param_seeds=seeds, objects_carry=False))
 
 
-def _ends_with_dot(repo: Repo, f: FuncInfo, e: ast.expr, depth: int = 0) -> bool:
-    """The string expression provably ends with '.'."""
+def _ends_with_dot_old(repo: Repo, f: FuncInfo, e: ast.expr, depth: int = 0) -> bool:
+    """(superseded by dot_status)"""
     if depth > 4:
         return False
     if isinstance(e, ast.Constant):
@@ -129,12 +129,12 @@ def _ends_with_dot(repo: Repo, f: FuncInfo, e: ast.expr, depth: int = 0) -> bool
     if isinstance(e, ast.JoinedStr):
         return bool(e.values) and isinstance(e.values[-1], ast.Constant) and str(e.values[-1].value).endswith(".")
     if isinstance(e, ast.BinOp) and isinstance(e.op, ast.Add):
-        return _ends_with_dot(repo, f, e.right, depth + 1)
+        return _ends_with_dot_old(repo, f, e.right, depth + 1)
     if isinstance(e, ast.Name) and not isinstance(f.node, ast.Lambda):
         assigns = [n for n in own_nodes(f.node) if isinstance(n, ast.Assign) and any(isinstance(t, ast.Name) and t.id == e.id for t in n.targets)]
         aug = [n for n in own_nodes(f.node) if isinstance(n, ast.AugAssign) and isinstance(n.target, ast.Name) and n.target.id == e.id]
         if len(assigns) == 1 and not aug and e.id not in f.param_names:
-            return _ends_with_dot(repo, f, assigns[0].value, depth + 1)
+            return _ends_with_dot_old(repo, f, assigns[0].value, depth + 1)
     return False
 
 
@@ -173,10 +173,375 @@ def _boundary_companion(f: FuncInfo, call: ast.AST, hay: ast.expr, needle: ast.e
     return False
 
 
+
+# --------------------------------------------------------------------------- provers used by the classification
+
+
+def _callers_args(repo: Repo, f: FuncInfo, param: str) -> list[tuple[FuncInfo, ast.expr]] | None:
+    """Argument expressions bound to `param` at every resolved call site of `f` (None if a site cannot be matched)."""
+    T = types_of(repo)
+    key = ("callsites", id(repo))
+    from .common import _cache
+
+    if key not in _cache:
+        idx: dict[str, list[tuple[FuncInfo, ast.Call]]] = {}
+        for g in repo.all_functions():
+            for c in calls_in(g.node):
+                try:
+                    cs, _how = T.callees(g, c, byname_fallback=False)
+                except Exception:  # noqa: BLE001
+                    cs = []
+                for callee in cs:
+                    idx.setdefault(callee.fq, []).append((g, c))
+        _cache[key] = idx
+    sites = _cache[key].get(f.fq, [])
+    if not sites:
+        return None
+    names_ = f.param_names
+    pos = list(names_)
+    if f.cls is not None and f.outer is None and not f.is_staticmethod and pos:
+        pos = pos[1:]
+    out = []
+    for g, c in sites:
+        expr = None
+        for k in c.keywords:
+            if k.arg == param:
+                expr = k.value
+        if expr is None and param in pos:
+            i = pos.index(param)
+            if i < len(c.args) and not any(isinstance(a, ast.Starred) for a in c.args[: i + 1]):
+                expr = c.args[i]
+        if expr is None:
+            return None
+        out.append((g, expr))
+    return out
+
+
+def dot_status(repo: Repo, f: FuncInfo, e: ast.expr, depth: int = 0) -> str:
+    """'dot'  - the string provably ends with '.',
+    'bare' - it provably is a plain module name (no separator appended),
+    'unknown' otherwise."""
+    if depth > 5:
+        return "unknown"
+    if isinstance(e, ast.Constant):
+        return "dot" if isinstance(e.value, str) and e.value.endswith(".") else "bare"
+    if isinstance(e, ast.JoinedStr):
+        if not e.values:
+            return "bare"
+        last = e.values[-1]
+        if isinstance(last, ast.Constant):
+            return "dot" if str(last.value).endswith(".") else "bare"
+        if isinstance(last, ast.FormattedValue):
+            return dot_status(repo, f, last.value, depth + 1)
+        return "unknown"
+    if isinstance(e, ast.BinOp) and isinstance(e.op, ast.Add):
+        return dot_status(repo, f, e.right, depth + 1)
+    if isinstance(e, ast.IfExp):
+        a, b = dot_status(repo, f, e.body, depth + 1), dot_status(repo, f, e.orelse, depth + 1)
+        return a if a == b else "unknown"
+    if isinstance(e, ast.Attribute):
+        if e.attr in ("identifier", "parent_module", "name", "module"):
+            return "bare"
+        if isinstance(e.value, ast.Name) and e.value.id == "self" and f.cls is not None:
+            vals = []
+            for m in f.cls.methods.values():
+                for n in own_nodes(m.node):
+                    if isinstance(n, ast.Assign):
+                        for t in n.targets:
+                            if isinstance(t, ast.Attribute) and isinstance(t.value, ast.Name) and t.value.id == "self" and t.attr == e.attr:
+                                vals.append(dot_status(repo, m, n.value, depth + 1))
+            if vals and len(set(vals)) == 1:
+                return vals[0]
+        return "unknown"
+    if isinstance(e, ast.Call):
+        fn = e.func
+        if isinstance(fn, ast.Attribute) and fn.attr in NAME_METHODS and not e.args:
+            return "bare"
+        if (isinstance(fn, ast.Name) and fn.id in NAME_FUNCS) or (isinstance(fn, ast.Attribute) and fn.attr in NAME_FUNCS):
+            return "bare"
+        if isinstance(fn, ast.Attribute) and fn.attr in ("rstrip", "strip") and e.args and isinstance(e.args[0], ast.Constant) and "." in str(e.args[0].value):
+            return "bare"
+        if isinstance(fn, ast.Name) and fn.id == "str" and len(e.args) == 1:
+            return dot_status(repo, f, e.args[0], depth + 1)
+        T = types_of(repo)
+        try:
+            cs, how = T.callees(f, e, byname_fallback=False)
+        except Exception:  # noqa: BLE001
+            cs, how = [], ""
+        if len(cs) == 1 and how == "repo":
+            rets = [r for r in own_nodes(cs[0].node) if isinstance(r, ast.Return) and r.value is not None]
+            vals = {dot_status(repo, cs[0], r.value, depth + 1) for r in rets}
+            if len(vals) == 1:
+                return vals.pop()
+        return "unknown"
+    if isinstance(e, ast.Name) and not isinstance(f.node, ast.Lambda):
+        if e.id in f.param_names:
+            stores = [n for n in own_nodes(f.node) if isinstance(n, ast.Name) and n.id == e.id and isinstance(n.ctx, ast.Store)]
+            if stores:
+                return "unknown"
+            ann = next((p.annotation for p in f.params if p.arg == e.id), None)
+            if ann is not None and ({n.id for n in ast.walk(ann) if isinstance(n, ast.Name)} | {n.attr for n in ast.walk(ann) if isinstance(n, ast.Attribute)}) & NAME_ANNOTATIONS:
+                return "bare"  # a module name by its declared type
+            args = _callers_args(repo, f, e.id)
+            if args:
+                vals = {dot_status(repo, g, a, depth + 1) for g, a in args}
+                if len(vals) == 1:
+                    return vals.pop()
+                if "bare" in vals and "unknown" not in vals:
+                    return "bare"
+            return "unknown"
+        assigns = [n for n in own_nodes(f.node) if isinstance(n, ast.Assign) and any(isinstance(t, ast.Name) and t.id == e.id for t in n.targets)]
+        others = [n for n in own_nodes(f.node) if isinstance(n, ast.Name) and n.id == e.id and isinstance(n.ctx, ast.Store)]
+        if assigns and len(others) == len(assigns):
+            vals = {dot_status(repo, f, a.value, depth + 1) for a in assigns}
+            if len(vals) == 1:
+                return vals.pop()
+            return "unknown"
+        # loop / comprehension target ranging directly over a collection of names
+        for n in own_nodes(f.node):
+            its = []
+            if isinstance(n, (ast.For, ast.AsyncFor)):
+                its = [(n.target, n.iter)]
+            elif isinstance(n, ast.comprehension):
+                its = [(n.target, n.iter)]
+            for tgt, it in its:
+                if isinstance(tgt, ast.Name) and tgt.id == e.id and len(others) == 1:
+                    if isinstance(it, ast.Call) and isinstance(it.func, ast.Name) and it.func.id in ("sorted", "list", "set", "reversed", "tuple", "frozenset") and it.args:
+                        it = it.args[0]
+                    if isinstance(it, ast.Call) and isinstance(it.func, ast.Attribute) and it.func.attr == "keys":
+                        it = it.func.value
+                    if isinstance(it, ast.Call):
+                        fn = it.func
+                        if (isinstance(fn, ast.Attribute) and (fn.attr in NAME_METHODS or fn.attr in NAME_FUNCS)) or (isinstance(fn, ast.Name) and fn.id in NAME_FUNCS):
+                            return "bare"
+                    if isinstance(it, ast.Attribute) and it.attr in ("nodes", "modules"):
+                        return "bare"
+                    if isinstance(it, ast.Name) and it.id in f.param_names:
+                        ann = next((p.annotation for p in f.params if p.arg == it.id), None)
+                        txt = norm(ann) if ann is not None else ""
+                        if "str" in txt and "tuple" not in txt.lower():
+                            # a collection of plain strings handed in by the caller: names, unless built with a separator
+                            args = _callers_args(repo, f, it.id)
+                            if args and all(_collection_of_bare(repo, g, a, depth + 1) for g, a in args):
+                                return "bare"
+        return "unknown"
+    return "unknown"
+
+
+def _collection_of_bare(repo: Repo, f: FuncInfo, e: ast.expr, depth: int) -> bool:
+    if depth > 5:
+        return False
+    if isinstance(e, ast.Call) and isinstance(e.func, ast.Name) and e.func.id in ("sorted", "list", "set", "reversed", "tuple", "frozenset") and e.args:
+        return _collection_of_bare(repo, f, e.args[0], depth + 1)
+    if isinstance(e, ast.Call) and isinstance(e.func, ast.Attribute) and e.func.attr == "keys":
+        return True
+    if isinstance(e, ast.Attribute) and e.attr in ("nodes", "modules"):
+        return True
+    if isinstance(e, ast.Name) and not isinstance(f.node, ast.Lambda):
+        if e.id in f.param_names:
+            ann = next((p.annotation for p in f.params if p.arg == e.id), None)
+            return ann is not None and "dict" in norm(ann)
+        assigns = [n for n in own_nodes(f.node) if isinstance(n, (ast.Assign, ast.AnnAssign)) and any(isinstance(t, ast.Name) and t.id == e.id for t in (n.targets if isinstance(n, ast.Assign) else [n.target]))]
+        if len(assigns) == 1 and assigns[0].value is not None:
+            return _collection_of_bare(repo, f, assigns[0].value, depth + 1)
+    return False
+
+
+def _ends_with_dot(repo: Repo, f: FuncInfo, e: ast.expr, depth: int = 0) -> bool:
+    return dot_status(repo, f, e, depth) == "dot"
+
+
+def _parse_atom(text: str) -> ast.expr | None:
+    try:
+        return ast.parse(text, mode="eval").body
+    except SyntaxError:
+        return None
+
+
+def _relation_atoms(repo: Repo, f: FuncInfo, formula, hay: str, others: set[str]):
+    """Atoms of `formula` relating `hay` to one of `others`: (safe, raw) lists of formulas.
+
+    safe: hay == o, hay.startswith(<o + '.'>);  raw: hay.startswith(o)
+    """
+    from core.guards import atom as mk, atoms_of
+
+    safe, raw = [], []
+    for a in atoms_of(formula):
+        e = _parse_atom(a)
+        if e is None:
+            continue
+        if isinstance(e, ast.Compare) and len(e.ops) == 1 and isinstance(e.ops[0], ast.Eq):
+            l, r = norm(e.left), norm(e.comparators[0])
+            if (l == hay and r in others) or (r == hay and l in others):
+                safe.append(mk(a))
+        inner = e.args[0] if isinstance(e, ast.Call) and isinstance(e.func, ast.Name) and e.func.id == "bool" and len(e.args) == 1 else e
+        if isinstance(inner, ast.Call) and isinstance(inner.func, ast.Attribute) and inner.func.attr == "startswith" and norm(inner.func.value) == hay and inner.args:
+            nd = inner.args[0]
+            mentioned = {x.id for x in ast.walk(nd) if isinstance(x, ast.Name)} | {norm(x) for x in ast.walk(nd) if isinstance(x, ast.Attribute)}
+            if norm(nd) in others:
+                st = dot_status(repo, f, nd)
+                (safe if st == "dot" else raw).append(mk(a))
+            elif mentioned & others and dot_status(repo, f, nd) == "dot":
+                safe.append(mk(a))
+    return safe, raw
+
+
+def _site_facts(repo: Repo, f: FuncInfo, node: ast.AST, other: str):
+    """Path condition of `node` (private helper predicates inlined) plus what `X = next(v for v in .. if test(v))` establishes for X."""
+    from core.guards import f_and, to_formula
+    from .common import copy_prop, guard_formula
+
+    facts = [guard_formula(f, node)]
+    others = {other}
+    if not isinstance(f.node, ast.Lambda):
+        for a_ in own_nodes(f.node):
+            if isinstance(a_, ast.Assign) and dotted(a_.targets[0]) == other and isinstance(a_.value, ast.Call) and dotted(a_.value.func) == "next" and a_.value.args and isinstance(a_.value.args[0], ast.GeneratorExp):
+                gen = a_.value.args[0]
+                if isinstance(gen.elt, ast.Name) and len(gen.generators) == 1:
+                    v = gen.elt.id
+                    others.add(v)
+                    for cond in gen.generators[0].ifs:
+                        facts.append(to_formula(cond, copy_prop(f)))
+    return f_and(facts), others
+
+
+def _ancestor_or_self(repo: Repo, f: FuncInfo, e: ast.expr, hay: str, depth: int = 0) -> bool:
+    """`e` is `hay` itself or an element of get_parent_modules(hay) (possibly None on other paths)."""
+    if depth > 4:
+        return False
+    if norm(e) == hay:
+        return True
+    if isinstance(e, ast.Constant) and e.value is None:
+        return True
+
+    def lineage(g: FuncInfo, x: ast.expr, h: str, d: int) -> bool:
+        if d > 5:
+            return False
+        if isinstance(x, ast.List):
+            return all(norm(el) == h for el in x.elts)
+        if isinstance(x, ast.BinOp) and isinstance(x.op, ast.Add):
+            return lineage(g, x.left, h, d + 1) and lineage(g, x.right, h, d + 1)
+        if isinstance(x, ast.Subscript) and isinstance(x.slice, ast.Slice):
+            return lineage(g, x.value, h, d + 1)
+        if isinstance(x, ast.Starred):
+            return lineage(g, x.value, h, d + 1)
+        if isinstance(x, ast.Call):
+            fn = x.func
+            nm = fn.id if isinstance(fn, ast.Name) else (fn.attr if isinstance(fn, ast.Attribute) else "")
+            if nm == "get_parent_modules" and x.args and norm(x.args[0]) == h:
+                return True
+            if nm in ("reversed", "list", "sorted", "tuple") and x.args:
+                return lineage(g, x.args[0], h, d + 1)
+            return False
+        if isinstance(x, ast.Name) and not isinstance(g.node, ast.Lambda):
+            stores = [n for n in own_nodes(g.node) if isinstance(n, ast.Name) and n.id == x.id and isinstance(n.ctx, ast.Store)]
+            assigns = [n for n in own_nodes(g.node) if isinstance(n, ast.Assign) and len(n.targets) == 1 and dotted(n.targets[0]) == x.id]
+            if len(stores) == 1 and len(assigns) == 1:
+                return lineage(g, assigns[0].value, h, d + 1)
+        return False
+
+    if isinstance(e, ast.Name) and not isinstance(f.node, ast.Lambda):
+        stores = [n for n in own_nodes(f.node) if isinstance(n, ast.Name) and n.id == e.id and isinstance(n.ctx, ast.Store)]
+        if len(stores) != 1:
+            return False
+        for n in own_nodes(f.node):
+            if isinstance(n, ast.Assign) and len(n.targets) == 1 and dotted(n.targets[0]) == e.id:
+                v = n.value
+                if isinstance(v, ast.Call) and dotted(v.func) == "next" and v.args and isinstance(v.args[0], ast.GeneratorExp) and len(v.args[0].generators) == 1 and isinstance(v.args[0].elt, ast.Name) and dotted(v.args[0].generators[0].target) == v.args[0].elt.id:
+                    return lineage(f, v.args[0].generators[0].iter, hay, 0)
+                if isinstance(v, ast.Call):
+                    T = types_of(repo)
+                    try:
+                        cs, how = T.callees(f, v, byname_fallback=False)
+                    except Exception:  # noqa: BLE001
+                        cs, how = [], ""
+                    if len(cs) == 1 and how == "repo":
+                        g = cs[0]
+                        # which parameter receives hay?
+                        pos = g.param_names
+                        if g.cls is not None and g.outer is None and not g.is_staticmethod:
+                            pos = pos[1:]
+                        hp = None
+                        for i, a in enumerate(v.args):
+                            if norm(a) == hay and i < len(pos):
+                                hp = pos[i]
+                        for k in v.keywords:
+                            if norm(k.value) == hay:
+                                hp = k.arg
+                        if hp is None:
+                            return False
+                        rets = [r for r in own_nodes(g.node) if isinstance(r, ast.Return) and r.value is not None]
+                        return bool(rets) and all(_ancestor_or_self(repo, g, r.value, hp, depth + 1) for r in rets)
+                return _ancestor_or_self(repo, f, v, hay, depth + 1)
+            if isinstance(n, (ast.For, ast.AsyncFor)) and isinstance(n.target, ast.Name) and n.target.id == e.id:
+                return lineage(f, n.iter, hay, 0)
+    return False
+
+
+def _boundary_predicate(repo: Repo, f: FuncInfo, hay: str = "", needle: str = "") -> bool:
+    """`f` is a predicate whose truthy result implies, for every raw `H.startswith(N)` it evaluates, that the character after
+    the prefix is '.' or absent (`H[len(N):] == ""`, `H[len(N):][0] == "."`, `H[len(N):].startswith(".")`, `H[len(N):][:1] in ("", ".")`)."""
+    from core.guards import atom as mk, atoms_of, f_not, f_or, implies
+    from .common import bool_inliner
+
+    if isinstance(f.node, ast.Lambda):
+        return False
+    key = ("boundary_pred", id(repo), f.fq)
+    from .common import _cache
+
+    if key in _cache:
+        return _cache[key]
+    inl = bool_inliner(repo)
+    env = {p: ast.Name(id=p, ctx=ast.Load()) for p in f.param_names}
+    try:
+        s = inl.summary(f, env, 0)
+    except Exception:  # noqa: BLE001
+        s = None
+    ok = False
+    if s is not None:
+        parsed = [(a, _parse_atom(a)) for a in atoms_of(s)]
+        raws = []
+        for a, e in parsed:
+            inner = e.args[0] if isinstance(e, ast.Call) and isinstance(e.func, ast.Name) and e.func.id == "bool" and len(e.args) == 1 else e
+            if isinstance(inner, ast.Call) and isinstance(inner.func, ast.Attribute) and inner.func.attr == "startswith" and inner.args:
+                nd = inner.args[0]
+                if not (isinstance(nd, ast.Constant) and nd.value == "."):
+                    raws.append((a, norm(inner.func.value), norm(nd)))
+        ok = bool(raws)
+        for a_raw, H, N in raws:
+            rest = f"{H}[len({N}):]"
+            empty_t, empty_f, dot = [], [], []
+            for a, e in parsed:
+                if e is None:
+                    continue
+                inner = e.args[0] if isinstance(e, ast.Call) and isinstance(e.func, ast.Name) and e.func.id == "bool" and len(e.args) == 1 else e
+                if isinstance(inner, ast.Call) and isinstance(inner.func, ast.Attribute) and inner.func.attr == "startswith" and inner.args and norm(inner.func.value) == rest and isinstance(inner.args[0], ast.Constant) and inner.args[0].value == ".":
+                    dot.append(mk(a))
+                if isinstance(e, ast.Call) and isinstance(e.func, ast.Name) and e.func.id == "bool" and norm(inner) == rest:
+                    empty_f.append(mk(a))  # truthy = non-empty
+                if isinstance(e, ast.Compare) and len(e.ops) == 1 and isinstance(e.ops[0], ast.Eq):
+                    l, r = e.left, e.comparators[0]
+                    for x, y in ((l, r), (r, l)):
+                        if norm(x) == rest and isinstance(y, ast.Constant) and y.value == "":
+                            empty_t.append(mk(a))
+                        if isinstance(y, ast.Constant) and y.value == "." and isinstance(x, ast.Subscript) and norm(x.value) == rest and norm(x.slice) in ("0", ":1"):
+                            dot.append(mk(a))
+                if isinstance(e, ast.Compare) and len(e.ops) == 1 and isinstance(e.ops[0], ast.In) and isinstance(e.left, ast.Subscript) and norm(e.left.value) == rest and norm(e.left.slice) == ":1":
+                    c = e.comparators[0]
+                    if isinstance(c, (ast.Tuple, ast.List, ast.Set)) and len(c.elts) == 2 and sorted(x.value for x in c.elts if isinstance(x, ast.Constant)) == ["", "."]:
+                        dot.append(mk(a))
+            boundary = f_or([*empty_t, *[f_not(x) for x in empty_f], *dot])
+            if not (dot and implies(s, f_or([f_not(mk(a_raw)), boundary]))):
+                ok = False
+    _cache[key] = ok
+    return ok
+
+
 def scan(repo: Repo) -> list[Site]:
     T = types_of(repo)
     flow = name_flow(repo)
     sites: list[Site] = []
+    boundary_funcs: set[str] = set()
 
     def tagged(e: ast.expr) -> set[str]:
         return set(flow.tags(e))
@@ -196,8 +561,15 @@ def scan(repo: Repo) -> list[Site]:
                     sites.append(Site(f, n, op, hay, needle, False, "not-name" if s else "unclassified", f"haystack `{norm(hay, 40)}` is not derived from a module name" if s else "provenance of the haystack unknown"))
                     continue
                 if op in ("startswith", "removeprefix"):
-                    safe = _ends_with_dot(repo, f, needle) or _boundary_companion(f, n, hay, needle)
+                    st = dot_status(repo, f, needle)
+                    safe = st == "dot" or _boundary_companion(f, n, hay, needle)
                     why = "prefix ends in '.' (whole dotted components)" if safe else f"`{norm(n, 80)}`: raw string prefix test on a module name - 'pkg.ab' counts as part of 'pkg.a'"
+                    if not safe and _boundary_predicate(repo, f, norm(hay), norm(needle)):
+                        safe, why = True, "raw prefix test inside a predicate that also requires the next character to be '.' or absent"
+                        boundary_funcs.add(f.fq)
+                    if not safe and st == "unknown":
+                        sites.append(Site(f, n, op, hay, needle, True, "unknown", f"`{norm(n, 80)}`: cannot establish whether the prefix `{norm(needle, 40)}` ends with the separator '.'"))
+                        continue
                 elif op in ("endswith", "removesuffix"):
                     safe = isinstance(needle, (ast.Constant, ast.JoinedStr)) and (norm(needle).strip("f'\"").startswith("."))
                     why = "suffix starts at a '.' boundary" if safe else f"`{norm(n, 80)}`: raw string suffix test on a module name"
@@ -254,18 +626,58 @@ def scan(repo: Repo) -> list[Site]:
             # ---- slicing by len(other) on a name
             elif isinstance(n, ast.Subscript) and isinstance(n.slice, ast.Slice) and "NAME" in tagged(n.value):
                 lens = [c for c in ast.walk(n.slice) if isinstance(c, ast.Call) and isinstance(c.func, ast.Name) and c.func.id == "len"]
-                if lens:
-                    # safe when the enclosing function established the prefix with a boundary-safe test on the same pair
-                    other = norm(lens[0].args[0]) if lens[0].args else ""
-                    others = {other}
-                    # X = next(v for v in ... if <test on v>): X satisfies whatever the generator's filter established for v
-                    for a_ in own_nodes(f.node):
-                        if isinstance(a_, ast.Assign) and dotted(a_.targets[0]) == other and isinstance(a_.value, ast.Call) and dotted(a_.value.func) == "next" and a_.value.args and isinstance(a_.value.args[0], ast.GeneratorExp) and isinstance(a_.value.args[0].elt, ast.Name):
-                            others.add(a_.value.args[0].elt.id)
+                if lens and _is_str(T, f, n.value) is not False:
+                    other_e = lens[0].args[0] if lens[0].args else None
+                    other = norm(other_e) if other_e is not None else ""
                     hay = norm(n.value)
-                    est = False
-                    for c in own_nodes(f.node):
-                        if isinstance(c, ast.Call) and isinstance(c.func, ast.Attribute) and c.func.attr == "startswith" and norm(c.func.value) == hay and c.args and (_ends_with_dot(repo, f, c.args[0]) and any(o in {x.id for x in ast.walk(c.args[0]) if isinstance(x, ast.Name)} for o in others)):
-                            est = True
-                    sites.append(Site(f, n, "slice-by-len", n.value, lens[0], True, "safe" if est else "unsafe", "prefix length of an ancestor established by a boundary-safe test" if est else f"`{norm(n, 60)}` cuts a module name at the length of another string without a boundary-safe prefix test"))
+                    if other_e is not None and _is_str(T, f, other_e) is False:
+                        continue  # length of a component list, not of a string
+                    from core.guards import f_or, implies
+
+                    facts, others = _site_facts(repo, f, n, other)
+                    safe_a, raw_a = _relation_atoms(repo, f, facts, hay, others)
+                    if safe_a and implies(facts, f_or(safe_a)):
+                        verdict, why = "safe", "prefix length of an ancestor established by a boundary-safe test"
+                    elif other_e is not None and _ancestor_or_self(repo, f, other_e, hay):
+                        verdict, why = "safe", "the other string is the name itself or one of its ancestors (get_parent_modules)"
+                    elif f.fq in boundary_funcs or _boundary_predicate(repo, f, hay, other):
+                        verdict, why = "safe", "the remainder is only examined by the boundary test of this predicate"
+                    elif raw_a and implies(facts, f_or([*safe_a, *raw_a])):
+                        verdict, why = "unsafe", f"`{norm(n, 60)}` cuts a module name at the length of another string without a boundary-safe prefix test"
+                    else:
+                        verdict, why = "unknown", f"`{norm(n, 60)}`: no test relating `{hay}` and `{other}` found on the paths to this slice"
+                    sites.append(Site(f, n, "slice-by-len", n.value, lens[0], True, verdict, why))
     return sites
+
+
+# --------------------------------------------------------------------------- positive fixture
+
+
+def fixture_selfcheck() -> str:
+    """Runs the lint on engine/fixtures/name_ops.py: every `unsafe_*` function must yield an unsafe site, no `safe_*` function may.
+
+    The expected number of unsafe sites on the real tree is zero, so this is what shows on every run that the lint still bites.
+    """
+    import shutil
+    import tempfile
+    from pathlib import Path
+
+    fx = Path(__file__).resolve().parents[1] / "fixtures" / "name_ops.py"
+    tmp = Path(tempfile.mkdtemp(prefix="pta-fixture-"))
+    try:
+        (tmp / "src" / "pytestarch").mkdir(parents=True)
+        shutil.copy(fx, tmp / "src" / "pytestarch" / "fixture_name_ops.py")
+        sites = scan(Repo(tmp))
+        by_fn: dict[str, set[str]] = {}
+        for s_ in sites:
+            if s_.name_typed:
+                by_fn.setdefault(s_.fi.name, set()).add(s_.verdict)
+        tree = ast.parse(fx.read_text())
+        want_unsafe = [n.name for n in tree.body if isinstance(n, ast.FunctionDef) and n.name.startswith("unsafe_")]
+        want_safe = [n.name for n in tree.body if isinstance(n, ast.FunctionDef) and (n.name.startswith("safe_") or n.name.startswith("_safe_"))]
+        bad = [n for n in want_unsafe if "unsafe" not in by_fn.get(n, set())] + [n for n in want_safe if by_fn.get(n, set()) - {"safe"}]
+        if bad:
+            raise AnalysisError(f"F-NAME fixture: idioms not classified as expected: {bad} (got {{k: sorted(v) for k, v in by_fn.items()}})".replace("{{", "{").replace("}}", "}"))
+        return f"{len(want_unsafe)} unsafe and {len(want_safe)} safe idioms of engine/fixtures/name_ops.py classified as expected"
+    finally:
+        shutil.rmtree(tmp, ignore_errors=True)
